@@ -18,6 +18,10 @@ def allowedViolations : List (String × String × String × String × Bool) := [
   ("memfs", "MemFS.removeAll", "child", "mu", true),
   -- K1: OrefaFS reads node.mode (IsDir) / children without the node lock
   ("orefafs", "OrefaFS.Chdir", "nd", "mu", false),
+  -- (Link looks at the kinds of the old node and of the new parent BEFORE locking them: that is what keeps it from
+  -- locking one node twice)
+  ("orefafs", "OrefaFS.Link", "nParent", "mu", false),
+  ("orefafs", "OrefaFS.Link", "oChild", "mu", false),
   ("orefafs", "OrefaFS.Mkdir", "parent", "mu", false),
   ("orefafs", "OrefaFS.MkdirAll", "child", "mu", false),
   ("orefafs", "OrefaFS.MkdirAll", "nd", "mu", false),
@@ -28,6 +32,7 @@ def allowedViolations : List (String × String × String × String × Bool) := [
   ("orefafs", "OrefaFS.RemoveAll", "parent", "mu", true),
   ("orefafs", "OrefaFS.Rename", "oChild", "mu", false),
   ("orefafs", "OrefaFS.Rename", "nChild", "mu", false),
+  ("orefafs", "OrefaFS.Rename", "nParent", "mu", false),
   ("orefafs", "OrefaFS.Truncate", "child", "mu", false),
   ("orefafs", "OrefaFS.removeAll", "nd", "mu", false),
   ("orefafs", "OrefaFS.removeAll", "nd", "mu", true),
@@ -71,7 +76,7 @@ def expectedNested : List (String × String × String × List String) := [
   ("memfs", "MemFile.Truncate", "f.nd#mu", ["f#mu:r"]),
   ("memfs", "MemFile.Write", "f.nd#mu", ["f#mu:w"]),
   ("memfs", "MemFile.WriteAt", "f.nd#mu", ["f#mu:r"]),
-  -- RECORDED FINDING (C07): Link(dir, dir/x) locks the same node as source and as new parent (self-deadlock)
+  -- the old node is a file and the new parent a directory (both kinds are tested right before the two locks are taken)
   ("orefafs", "OrefaFS.Link", "nParent#mu", ["oChild#mu:w"]),
   ("orefafs", "OrefaFS.Link", "vfs#mu", ["nParent#mu:w", "oChild#mu:w"]),
   ("orefafs", "OrefaFS.Remove", "parent#mu", ["vfs#mu:w"]),
@@ -79,6 +84,8 @@ def expectedNested : List (String × String × String × List String) := [
   -- RECORDED FINDING (C07): node locks, then the index lock — the opposite order of Remove / createNode
   ("orefafs", "OrefaFS.Rename", "oParent#mu", ["nParent#mu:w"]),
   ("orefafs", "OrefaFS.Rename", "vfs#mu", ["nParent#mu:w", "oParent#mu:w"]),
+  -- the replaced node is a file (a directory destination is refused before the locks), the two parents are directories
+  ("orefafs", "OrefaFS.Rename", "nChild#mu", ["nParent#mu:w", "oParent#mu:w"]),
   ("orefafs", "OrefaFile.Read", "f.nd#mu", ["f#mu:r"]),
   ("orefafs", "OrefaFile.ReadAt", "f.nd#mu", ["f#mu:r"]),
   ("orefafs", "OrefaFile.ReadDir", "f.nd#mu", ["f#mu:r"]),
